@@ -534,4 +534,34 @@ func (p *Program) sameOrigins(a, b ssa.Value) bool {
 	return true
 }
 
+// staticReach returns fn, its closures and every module function reached from them through static
+// calls (recursive ones included), stopping at other anchors.
+func (p *Program) staticReach(fn *ssa.Function) []*ssa.Function {
+	seen := map[*ssa.Function]bool{}
+	var out []*ssa.Function
+	var add func(f *ssa.Function)
+	add = func(f *ssa.Function) {
+		for _, g := range allFuncsDeep(f) {
+			if seen[g] {
+				continue
+			}
+			seen[g] = true
+			out = append(out, g)
+			eachInstr(g, func(in ssa.Instruction) {
+				c, ok := in.(ssa.CallInstruction)
+				if !ok || c.Common().IsInvoke() {
+					return
+				}
+				callee := c.Common().StaticCallee()
+				if callee == nil || !p.InModule(callee) || callee.Parent() != nil || p.helpers().anchors[callee] {
+					return
+				}
+				add(callee)
+			})
+		}
+	}
+	add(fn)
+	return out
+}
+
 var _ = types.Typ
